@@ -414,6 +414,48 @@ func checkC15(c *Ctx) {
 	}
 	rr.Check(nRaise >= 1, scan.Name(), "raises", scan.Body.Pos(), "ErrRecordNotFound is raised", "nothing raises ErrRecordNotFound any more")
 
+	checkC15MapComplete(c)
+
+	// ---- C15.cursor-group ----
+	// FindInBatches continues after the last key of a batch by adding `pk > ?` to the chain.  Like the
+	// soft-delete filter this restriction has to apply to the WHOLE user condition: with a lone OR unit in the
+	// WHERE clause (`a OR b`) an appended AND binds to the last unit only (`a OR b AND pk > ?`) and the rows
+	// matching `a` come back in every batch.  Sibling rule of C08.regroup: the statement the cursor is added
+	// to has its lone-OR conditions regrouped into one AND unit first.
+	rcg := c.Rule("C15.cursor-group", "FindInBatches regroups lone-OR conditions before adding the batch cursor", 1)
+	{
+		fib := p.MethodDecl(pkgGorm, "DB", "FindInBatches")
+		c.Touch(fib)
+		info := fib.Pkg.TypesInfo
+		gtT := p.Named(pkgClause, "Gt")
+		clausesM := p.Method(p.Named(pkgGorm, "DB"), "Clauses")
+		var cursor *ast.CallExpr
+		for _, call := range callsIn(fib) {
+			if fn, _ := typeutil.Callee(info, call).(*types.Func); fn == clausesM {
+				if len(litsOfType(info, call, gtT, false)) > 0 {
+					cursor = call
+				}
+			}
+		}
+		if cursor == nil {
+			rcg.Bad(fib.Name(), "cursor", fib.Body.Pos(), "FindInBatches no longer adds a `primary key > last` cursor condition; rule lost its anchor")
+		} else {
+			store, hasAnd := findRegroup(p, fib)
+			okc := store != nil && hasAnd
+			if okc {
+				gs := p.Guards(fib, nil)
+				// the regroup happens before the cursor is first added and on the statement the cursor extends
+				okc = gs.Reaches(store.Pos(), func(n ast.Node) bool { return containsNode(n, cursor) })
+				if ix, ok := store.Lhs[0].(*ast.IndexExpr); ok {
+					if sel, ok := cursor.Fun.(*ast.SelectorExpr); ok {
+						okc = okc && strings.HasPrefix(canon(info, ix.X), canon(info, sel.X)+".")
+					}
+				}
+			}
+			rcg.Check(okc, fib.Name(), "cursor restricts the whole condition", cursor.Pos(), "lone-OR conditions regrouped (clause.And(all...)) on the cursor's statement first", "the batch cursor `pk > ?` is ANDed onto a WHERE clause that may contain a lone OR unit without regrouping it first: `a OR b AND pk > ?` returns the rows matching `a` in every batch (rows delivered repeatedly, FindInBatches may never terminate)")
+		}
+	}
+
 	// ---- C15.tick ----
 	rt := c.Rule("C15.tick", "RowsAffected reset before the destination switch; each rows.Scan under rows.Next() paired with one RowsAffected++", 5)
 	raF := p.Field(dbT, "RowsAffected")
@@ -677,6 +719,7 @@ func checkC20(c *Ctx) {
 	}
 
 	checkC20Default(c)
+	checkC20NameAgree(c)
 
 	// ---- C20.guarded-add ----
 	rg := c.Rule("C20.guarded-add", "every additive DDL call in AutoMigrate is conditional on absence (and MigrateColumn on presence)", 6)
